@@ -417,6 +417,7 @@ pub fn gen_string(rg: &mut Rg, cfg: &GenCfg) -> EnumSpec {
         e.lifetime = rg.chance(1, 6);
         e.const_param = rg.chance(1, 8);
         e.where_clause = e.type_param && rg.chance(1, 2);
+        e.generic_defaults = (e.type_param || e.const_param) && rg.chance(1, 4);
     }
     // enum-level attributes
     let mut eattrs = Vec::new();
@@ -899,6 +900,7 @@ pub fn gen_shape(rg: &mut Rg) -> EnumSpec {
     e.type_param = rg.chance(1, 4);
     e.lifetime = rg.chance(1, 5);
     e.where_clause = false;
+    e.generic_defaults = e.type_param && rg.chance(1, 3);
     let n = rg.range(1, 8);
     let mut idents: Vec<&str> = IDENTS.iter().copied().filter(|i| method_safe(i)).collect();
     rg.shuffle(&mut idents);
@@ -1035,7 +1037,7 @@ pub fn gen_meta(rg: &mut Rg, cfg: &GenCfg, props: bool) -> EnumSpec {
                 for _ in 0..np {
                     let k = rg.pick(PROP_KEYS).to_string();
                     let (val, t) = match rg.below(3) {
-                        0 => (PropVal::Str(rg.pick(MESSAGES).to_string()), 0u8),
+                        0 => (PropVal::Str(rg.pick(PROP_STRINGS).to_string()), 0u8),
                         1 => {
                             let x = *rg.pick(&[0i64, 1, -1, 16, 201, -5, i64::MAX, i64::MIN, 255, 1000000007, -42]);
                             (PropVal::Int(x, rg.chance(1, 4)), 1)
